@@ -203,8 +203,9 @@ CONFIGS = {
     'ma': [dict(Q=2, M=6), dict(Q=3, M=9)],
     'minvar': [dict(order=2, NFFT=8), dict(order=3, NFFT=9), dict(order=5, NFFT=16)],
     'music': [dict(IP=2, NSIG=1, NFFT=8), dict(IP=4, NSIG=None, threshold=None, criteria='aic', NFFT=16), dict(IP=4, NSIG=None, criteria='mdl', NFFT=16),
-              dict(IP=4, NSIG=None, threshold=2.0, NFFT=16)],
-    'ev': [dict(IP=2, NSIG=1, NFFT=8), dict(IP=4, NSIG=None, criteria='aic', NFFT=16), dict(IP=4, NSIG=None, threshold=2.0, NFFT=16)],
+              dict(IP=4, NSIG=None, threshold=2.0, NFFT=16), dict(IP=80, NSIG=None, criteria='aic', NFFT=256), dict(IP=80, NSIG=None, criteria='mdl', NFFT=256)],
+    'ev': [dict(IP=2, NSIG=1, NFFT=8), dict(IP=4, NSIG=None, criteria='aic', NFFT=16), dict(IP=4, NSIG=None, threshold=2.0, NFFT=16),
+           dict(IP=80, NSIG=None, criteria='mdl', NFFT=256)],
     'pmtm': [dict(NW=2.5, NFFT=32, method='adapt'), dict(NW=2, NFFT=33, method='eigen'), dict(NW=2.5, k=3, NFFT=32, method='unity')],
     'class:Periodogram': [dict(NFFT=None)],
     'class:pcorrelogram': [dict(lag=3, NFFT=16)],
@@ -294,6 +295,8 @@ def datasets(tier):
     for N in ([16] if q else [16, 17, 24, 33]):
         out.append(('GENR', N))
         out.append(('GENC', N))
+    out.append(('GENR', 160))        # long record x wide subspace (IP = 80): automatic subspace selection over many singular values
+    out.append(('GENC', 160))
     return out
 
 
@@ -302,6 +305,8 @@ def shards(tier):
     for ds in datasets(tier):
         for name in PROBES:
             if ds[0] in ('ZR1', 'ZC5') and name in NEEDS_LONG:
+                continue
+            if ds[1] == 160 and name not in ('music', 'ev'):
                 continue
             out.append((ds[0], ds[1], name))
     return out
@@ -332,7 +337,13 @@ def run_shard(desc, R, tier):
             continue
         cplx = np.iscomplexobj(x)
         scal = (A.SCAL_C[:2] if q else A.SCAL_C) if cplx else (A.SCAL_R[:3] if q else A.SCAL_R)
+        if n == 160:
+            if dname is None or not (dname.startswith('weyl0') or dname.startswith('cweyl0')) or '*' in dname:
+                continue
+            scal = [1e4 * (1j if cplx else 1.0), 1e-5]      # the product of 79 singular values leaves the float range; their geometric mean does not
         for o in CONFIGS[name]:
+            if (n == 160) != (o.get('IP') == 80):
+                continue
             why = admissible(name, o, x)
             if why:
                 R.point(None, indomain=False)
